@@ -1,22 +1,22 @@
-\* thorough, depth 0: three directories, every list of them, every population
+\* C04: every request of <= 2 tokens (resolvable, unknown, unqualified, padded; repetitions) on every population of two directories
 SPECIFICATION Spec
 CONSTANTS
-  DirIds = {"A", "B", "C"}
-  DirLists <- T0DirLists
-  InitStates = {"dir", "missing", "badanc", "notdir"}
+  DirIds = {"A", "B"}
+  DirLists <- InjDirLists
+  InitStates = {"dir"}
   SpecNames = {"a.json", "b.yaml"}
   NoiseNames = {}
   NameOrder <- T0Order
-  Kinds = {"k1", "k2"}
+  Kinds = {"k1"}
   Devs = {"x", "y"}
-  Contents <- T0Contents
+  Contents <- InjContents
   WContents <- HContents
   NoiseContents <- QNoise
   Requests <- QRequests
-  MaxOps = 0
+  MaxOps = 1
   MaxPending = 2
   BUG_F5 = FALSE
   BUG_F6 = FALSE
-  OPS = {"fs", "refresh", "api", "inject"}
+  OPS = {"inject"}
   EMIT = TRUE
 INVARIANTS TypeOK PrecedenceOK IsolationOK EmitRow
